@@ -2127,6 +2127,10 @@ class AstEval:
                 names.add(arg.name)
                 for dec in arg.decorator_list:
                     await self.get_names_set(dec, names, nonlocal_names, global_names, local_names)
+                if cls_name != "ClassDef":
+                    # default values are evaluated in our scope (a walrus there binds our local)
+                    for dflt in arg.args.defaults + [d for d in arg.args.kw_defaults if d is not None]:
+                        await self.get_names_set(dflt, names, nonlocal_names, global_names, local_names)
                 #
                 # find unbound names from the body of the function or class
                 #
@@ -2135,6 +2139,16 @@ class AstEval:
                     await self.get_names_set(child, inner_names, None, inner_global, inner_local)
                 for name in inner_names:
                     if name not in inner_local and name not in inner_global:
+                        names.add(name)
+                return
+            elif cls_name == "Lambda":
+                # a lambda body is a scope of its own: what it binds (walrus, comprehension targets) is not our local
+                for dflt in arg.args.defaults + [d for d in arg.args.kw_defaults if d is not None]:
+                    await self.get_names_set(dflt, names, nonlocal_names, global_names, local_names)
+                inner_names, inner_local = set(), set()
+                await self.get_names_set(arg.body, inner_names, None, None, inner_local)
+                for name in inner_names:
+                    if name not in inner_local:
                         names.add(name)
                 return
             elif cls_name == "Delete":
